@@ -3,7 +3,7 @@
 //! tokio's paused clock.
 //!
 //! case line:  sys <seed> <piece length> <file lengths a,b,..> ; peer <have bits> <behaviour> [<arg>] ; peer ...
-//!   behaviour: honest | slow | corrupt <every k-th block> | dropafter <n messages> | garbage <after n> | lateunchoke
+//!   behaviour: honest | havelater <ms> | havewait <ms> | slow | corrupt <every k-th block> | dropafter <n messages> | garbage <after n> | lateunchoke
 //! output: one line of key=value fields (see the end of run_case)
 use crate::hnd::sha1;
 use crate::util::*;
@@ -84,8 +84,13 @@ async fn remote_peer(
         return;
     }
     let mut bits = vec![0u8; (n + 7) / 8];
+    // 'havelater <ms>': an honest peer that opens with an empty bitfield and announces its pieces by Have after <ms>
+    // 'havewait <ms>': the same, but unchokes only when asked (Interested); 'havelater' also unchokes unasked 30 s later
+    let mut announced = behaviour != "havelater" && behaviour != "havewait";
+    let spontaneous = behaviour == "havelater";
+    let have_at = tokio::time::Instant::now() + Duration::from_millis(if announced { 0 } else { arg as u64 });
     for (i, h) in have.iter().enumerate() {
-        if *h {
+        if *h && announced {
             bits[i / 8] |= 128 >> (i % 8);
         }
     }
@@ -97,6 +102,7 @@ async fn remote_peer(
     let mut msgs = 0usize;
     let mut blocks = 0usize;
     let mut unchoked_them = false;
+    let unchoke_at = have_at + Duration::from_secs(30);
     let mut held: Option<(usize, usize, usize)> = None;
     // 'holdleave <ms>': takes requests, never answers, leaves after <ms>
     let leave_at = tokio::time::Instant::now() + if behaviour == "holdleave" { Duration::from_millis(arg as u64) } else { Duration::from_secs(100_000_000) };
@@ -240,6 +246,20 @@ async fn remote_peer(
             _ = tokio::time::sleep_until(leave_at) => {
                 let _ = io.shutdown().await;
                 return;
+            }
+            _ = tokio::time::sleep_until(unchoke_at), if spontaneous && announced && !unchoked_them => {
+                unchoked_them = true;
+                if !write_chunked(&mut io, &frame(1, &[]), &mut rng, slow).await {
+                    return;
+                }
+            }
+            _ = tokio::time::sleep_until(have_at), if !announced => {
+                announced = true;
+                for (i, h) in have.iter().enumerate() {
+                    if *h && !write_chunked(&mut io, &frame(4, &(i as u32).to_be_bytes()), &mut rng, slow).await {
+                        return;
+                    }
+                }
             }
         }
     }
